@@ -134,6 +134,16 @@ def run(report: Report, tier, seed):
     for name, lst in (("flattenBlocks", ff), ("sortBlocks", sf)):
         if lst and not any(name in v.what for v in report.violations):
             report.violation(Violation(key=f"ir:{name}:{lst[0]['kinds']}:{lst[0]['succ']}", what=f"{name}: {lst[0]['what']}", replay={"kind": "ir", "input": lst[0]}, confirmed_native=True))
+    from . import shared_objs
+    sj = shared_objs.jobs(tier)
+    with ProcessPoolExecutor(max_workers=16) as ex:
+        sr = list(ex.map(shared_objs.case, sj, chunksize=8))
+    sbad = [r for r in sr if r["crash"]]
+    report.bounded.append(Bounded(function="compileTeal on programs that use one Expr object at several places", contract="TEAL or a PyTeal error, never another exception",
+                                  bound=f"{len(shared_objs.TEMPLATES)} sharing templates x {len(shared_objs.STMTS)} statements x versions x slot optimiser on/off, each with a shared object and with separately built equal objects",
+                                  cases=sum(r["ran"] for r in sr), distinct_nontrivial=len(sj), failures=len(sbad)))
+    for b in sbad[:2]:
+        report.violation(Violation(key=f"shared:{b['job'][0]}:{b['job'][1]}", what=f"sharing template {b['job']}: {b['crash']}"[:300], replay={"kind": "shared", "job": b["job"]}, confirmed_native=True))
     progs = shape_programs(tier)
     versions = [2, 4, 6, 8, 9, 10] if tier == "quick" else list(range(2, 11))
     jobs = []
@@ -228,6 +238,11 @@ def replay(data):
         c, f = ir_native.check_flatten(3)
         print(f[:1])
         return 1 if f else 0
+    if r["kind"] == "shared":
+        from . import shared_objs
+        out = shared_objs.case(tuple(r["job"]))
+        print(out)
+        return 1 if out["crash"] else 0
     if r["kind"] == "shape":
         out = _compile_shape(("replay", _tuplify(r["main"]), r["version"], r["opt"]))
         print(out)
